@@ -74,13 +74,13 @@ def E0 : Ext := ⟨id, fun _ => none, fun _ vs => .ok (.sset [] vs)⟩
 def rtCheck (E : Ext) (v : Value) (t : Ty) (chk : Value → Bool) : Bool :=
   match marshal E v t with
   | .ok it =>
-    (match unmarshal E it t with
+    (match Unmarshal E it t with
      | .ok v' => chk v'
      | _ => false)
   | _ => false
 
 theorem rtCheck_of {E : Ext} {v : Value} {t : Ty} {chk : Value → Bool} {P : Value → Prop}
-    (h : ∃ it v', marshal E v t = .ok it ∧ unmarshal E it t = .ok v' ∧ P v') (hP : ∀ v', P v' → chk v' = true) :
+    (h : ∃ it v', marshal E v t = .ok it ∧ Unmarshal E it t = .ok v' ∧ P v') (hP : ∀ v', P v' → chk v' = true) :
     rtCheck E v t chk = true := by
   obtain ⟨it, v', hm, hu, hp⟩ := h
   simp [rtCheck, hm, hu, hP v' hp]
